@@ -1100,14 +1100,20 @@ theorem step_wf (w : World) (wf : WorldWF w) (op : Op) : WorldWF (step w op).1 :
     rcases upd_some_cases _ _ _ _ _ hs with h1 | h1
     · exact Or.inl h1
     · subst h1; exact Or.inr c
-  | mkModule mslot k nv nh na rand =>
-    obtain ⟨a, b, c, _, _⟩ := newNet_facts wf.heap k nv nh na rand
+  | mkModule mslot k nv nh na zw rand =>
+    obtain ⟨a, b, c, _, _⟩ := newNet_facts wf.heap k nv nh na (weightToks zw rand)
     simp only [step]
     refine wf.update _ a b _ _ _ _ (fun _ _ hs => Or.inl hs) ?_
     intro s id hm
     rcases upd_some_cases _ _ _ _ _ hm with h1 | h1
     · exact Or.inl h1
     · subst h1; exact Or.inr c
+  | initModule mslot zw rand =>
+    simp only [step]
+    cases hm : w.modules mslot with
+    | none => exact wf
+    | some id =>
+      exact keep _ _ (wf.heap.initParams id _) (netsGrow_initParams w.heap id _)
   | constructFrom slot kind mslot ud =>
     simp only [step]
     cases hm : w.modules mslot with
